@@ -702,8 +702,72 @@ def check_regular(ctx, fname, assembly_type, kparams):
     return out, it, hooks
 
 
+def _static_result_slots(ctx, fname, module=NK):
+    """Fallback when the interpretation of a singular assembler stops at a store index it cannot reason about: read
+    every store into the result array from the syntax and compare its index, as a polynomial in the loop variables,
+    with the layout the reader decodes: nshape_test*nshape_trial*pair + nshape_trial*i + j (i over range(nshape_test),
+    j over range(nshape_trial), pair the variable of the outer parallel loop).  Returns a list of deviating stores
+    [(line, index text)] or None when the syntax cannot be read that way."""
+    fn = ctx.repo.mod(module).fn(fname)
+    params = arg_names(fn)
+    role = dict(zip(SINGULAR_SIG, params))
+    RES, NT, NR = role["result"], role["nshape_test"], role["nshape_trial"]
+    loopvar = {}
+
+    def visit(body, env):
+        for st in body:
+            if isinstance(st, ast.For) and isinstance(st.target, ast.Name) and isinstance(st.iter, ast.Call) and st.iter.args:
+                f = ast.unparse(st.iter.func).split(".")[-1]
+                arg = ast.unparse(st.iter.args[0]).replace(" ", "")
+                kind = "i" if (f == "range" and arg == NT) else "j" if (f == "range" and arg == NR) else "pair" if f == "prange" else None
+                yield from visit(st.body, dict(env, **({st.target.id: kind} if kind else {})))
+            elif isinstance(st, (ast.For, ast.While, ast.If, ast.With)):
+                for blk in (getattr(st, "body", []), getattr(st, "orelse", [])):
+                    yield from visit(blk, env)
+            else:
+                tgt = st.target if isinstance(st, ast.AugAssign) else (st.targets[0] if isinstance(st, ast.Assign) and len(st.targets) == 1 else None)
+                if isinstance(tgt, ast.Subscript) and isinstance(tgt.value, ast.Name) and tgt.value.id == RES:
+                    yield st, tgt.slice, env
+
+    def poly(e, env):
+        if isinstance(e, ast.Constant) and isinstance(e.value, int):
+            return V.const(e.value)
+        if isinstance(e, ast.Name):
+            if e.id in env:
+                return V.atom("‹%s›" % env[e.id])
+            if e.id == NT:
+                return V.atom("#nt")
+            if e.id == NR:
+                return V.atom("#nr")
+            raise AnalysisError("name %s" % e.id)
+        if isinstance(e, ast.BinOp) and isinstance(e.op, (ast.Add, ast.Sub, ast.Mult)):
+            a, b = poly(e.left, env), poly(e.right, env)
+            return a + b if isinstance(e.op, ast.Add) else a - b if isinstance(e.op, ast.Sub) else a * b
+        raise AnalysisError("expression")
+
+    want = V.atom("#nt") * V.atom("#nr") * V.atom("‹pair›") + V.atom("#nr") * V.atom("‹i›") + V.atom("‹j›")
+    bad, n = [], 0
+    try:
+        for st, sl, env in visit(fn.body, {}):
+            n += 1
+            if not poly(sl, env).eq(want):
+                bad.append((st.lineno, ast.unparse(sl)[:90]))
+    except AnalysisError:
+        return None
+    return bad if n else None
+
+
 def check_singular(ctx, fname, assembly_type, kparams):
-    it, hooks, _ = run_assembler(ctx, fname, "singular", kparams)
+    try:
+        it, hooks, _ = run_assembler(ctx, fname, "singular", kparams)
+    except AnalysisError as e:
+        if "cannot decide aliasing of result[" not in str(e):
+            raise
+        bad = _static_result_slots(ctx, fname)
+        if not bad:
+            raise
+        return [("layout", False, "result is written at `%s` (line %d), expected nshape_test*nshape_trial*pair + i*nshape_trial + j with i over range(nshape_test), j over range(nshape_trial): "
+                 "the reader decodes that layout, so entries land in the wrong (test function, trial function) slot or collide" % (bad[0][1], bad[0][0]))], None, None
     out = []
     ws = final_writes(it, "result")
     if not ws:
